@@ -77,6 +77,14 @@ CHECKS = {
           'simreactor', 'DESIGN.md section 4 C15',
           'Generated datapoint lists (random 64-bit doubles, boundary magnitudes, huge ints, +-inf, fractional timestamps, non-ASCII names) queued in the real client factory, sent in MAX_DATAPOINTS_PER_MESSAGE batches by the pickle and line client protocols and fed under generated segmentation to the matching listener; count/order/name exact, pickle values bit-exact, line values within the stated tolerance (checked in exact rational arithmetic). One inherent half-ulp band recorded as a known finding.',
           'protobuf not importable here; client and listener joined at the transport boundary.'),
+  'C07': ('exploration', 'model-based property-based testing over generated event histories on a simulated reactor; exhaustive short event sequences in the thorough tier',
+          'simreactor', 'DESIGN.md section 4 C07',
+          'Generated sequences of arrivals, self-metrics, connects, failures, losses, transport pauses/resumes, timer advances and stop against a relay wired by carbon\'s own setupPipeline on a simulated reactor (1-4 destinations, dynamic router on/off, pickle and line protocols, queue/batch/watermark proportions varied); bytes written to each transport are decoded and compared with the arrival order recorded at each queue: in-order, exactly-once, drops only at the hard limit and counted, bound after every step, conservation at quiescence, stop closes only after the queue was sent.',
+          'Bytes handed to a transport count as transmitted; REPLICATION_FACTOR 1; no arrivals after stop.'),
+  'C09': ('exploration', 'schedule-generating (cache side, incl. exhaustive single-preemption placement) and event-history-generating (relay side) property-based testing with a quiescence oracle',
+          'sched+simreactor', 'DESIGN.md section 4 C09',
+          'Cache side: receivers, a storing thread and a draining thread under generated and exhaustively placed preemptions with carbon\'s own flow-control wiring; relay side: the C07 machine plus structured pressure scenarios with flow control and receivers, quiescing either with everything reachable or with the environment keeping destinations down. At quiescence receivers must not be paused while every buffer is below its low watermark, connections made while paused must be paused, and no receiver may stay paused after the others were resumed. Three genuine defects found and fixed.',
+          'Liveness is decided at quiescence on virtual clocks; line-level interleavings.'),
 }
 
 PENDING_REASON = 'check not built yet in this session (design in DESIGN.md section 4); will be claimed once its check is quiet on the unchanged tree and catches its mutants'
